@@ -60,6 +60,10 @@ def random_graph(cls, rng, maxn=40, maxe=120, valrange=6):
     m = rng.randint(0, min(maxe, n * 4))
     keys = rng.sample(range(1, 400), n)
     vals = [rng.randint(0, valrange) for _ in range(n)]
+    if rng.random() < 0.3:
+        # the whole i64 range, negative values and the extremes included (comparison by subtraction would overflow)
+        WIDE = [-2 ** 63, -2 ** 63 + 1, -2 ** 62, -7, -1, 0, 1, 7, 2 ** 62, 2 ** 63 - 2, 2 ** 63 - 1]
+        vals = [rng.choice(WIDE) for _ in range(n)]
     edges = []
     for i in range(m):
         u = rng.randrange(n)
